@@ -1,13 +1,422 @@
-//! C10 — `compute_new_shutdown` and `ActiveStreamCounter` (hook `verif_c10`) vs the Lean model `C10`.
-//! ops:  `compute <keep_alive 0|1> <none|asap|later> <idle_timeout_ms>`  → impl `unchanged|none|asap|later`
-//!       `counter <clones> <dropped>`                                   → impl `idle=<0|1>`
-//! The shutdown block of `Connection::poll` itself is modelled in Lean (`C10.pollShutdown`) and
-//! proved there; this harness ties its two callees to the code.
+//! C10 — idle shutdown. Two groups of ops:
+//!
+//! (A) end-to-end: a REAL `Connection` (hook `verif_c10::Conn`) over a scripted muxer and a probe
+//!     handler, polled step by step with a no-op waker under a FROZEN interposed clock:
+//!       `new <idle_timeout_ms|max> <max_negotiating_inbound>`   construct
+//!       `ka <0|1>`      handler's `connection_keep_alive()` answer
+//!       `req`           handler will request one outbound stream at its next poll
+//!       `allow`         muxer will hand out one substream on `poll_outbound`
+//!       `respout`       remote answers the oldest outbound negotiation (multistream-select listener)
+//!       `inb`           muxer has one inbound substream ready
+//!       `respin`        remote drives the oldest accepted inbound negotiation (multistream-select dialer)
+//!       `drop` / `ignore` / `dropign`   handler drops a held stream / marks one
+//!                       `ignore_for_keep_alive` / drops an ignored one
+//!       `adv <ms>`      advance the clock and wait until futures-timer processed it
+//!       `poll`          one `Connection::poll`
+//!     impl: `<-|pending|event|closed|error:…> sh=<none|asap|later> ni=<negotiating_in> no=<negotiating_out>
+//!            rq=<requested_substreams> act=<0|1 counter has active streams>`
+//! (B) callees: `compute <ka> <none|asap|later> <timeout_ms>` → `unchanged|none|asap|later`,
+//!     `counter <clones> <dropped>` → `idle=<0|1>`.
+use futures::{AsyncRead, AsyncWrite, FutureExt};
 use hcore::{Args, Out, Rng};
-use libp2p_swarm::verif_c10::{self, Kind};
+use libp2p_core::muxing::{StreamMuxer, StreamMuxerBox, StreamMuxerEvent};
+use libp2p_core::upgrade::ReadyUpgrade;
+use libp2p_swarm::handler::{
+    ConnectionEvent, ConnectionHandler, ConnectionHandlerEvent, FullyNegotiatedInbound, FullyNegotiatedOutbound,
+    SubstreamProtocol,
+};
+use libp2p_swarm::verif_c10::{self, Conn, Kind, Polled};
+use libp2p_swarm::{Stream, StreamProtocol};
+use std::collections::VecDeque;
+use std::future::Future;
+use std::pin::Pin;
+use std::sync::{Arc, Mutex};
+use std::task::{Context, Poll, Waker};
 use std::time::Duration;
 
-fn exec(out: &mut Out, op: &[String]) {
+const PROTO: &str = "/probe/1";
+/// upgrade / substream-request timeouts: far beyond any clock advance of a case
+const NEVER: Duration = Duration::from_secs(1_000_000_000);
+
+// ------------------------------------------------------------------ in-memory duplex pipe
+#[derive(Default)]
+struct Half {
+    buf: VecDeque<u8>,
+    waker: Option<Waker>,
+    closed: bool,
+}
+struct PipeEnd {
+    rd: Arc<Mutex<Half>>,
+    wr: Arc<Mutex<Half>>,
+}
+fn pipe() -> (PipeEnd, PipeEnd) {
+    let a: Arc<Mutex<Half>> = Default::default();
+    let b: Arc<Mutex<Half>> = Default::default();
+    (PipeEnd { rd: a.clone(), wr: b.clone() }, PipeEnd { rd: b, wr: a })
+}
+impl AsyncRead for PipeEnd {
+    fn poll_read(self: Pin<&mut Self>, cx: &mut Context<'_>, out: &mut [u8]) -> Poll<std::io::Result<usize>> {
+        let mut h = self.rd.lock().unwrap();
+        if h.buf.is_empty() {
+            if h.closed {
+                return Poll::Ready(Ok(0));
+            }
+            h.waker = Some(cx.waker().clone());
+            return Poll::Pending;
+        }
+        let n = out.len().min(h.buf.len());
+        for b in out.iter_mut().take(n) {
+            *b = h.buf.pop_front().unwrap();
+        }
+        Poll::Ready(Ok(n))
+    }
+}
+impl AsyncWrite for PipeEnd {
+    fn poll_write(self: Pin<&mut Self>, _: &mut Context<'_>, data: &[u8]) -> Poll<std::io::Result<usize>> {
+        let w = {
+            let mut h = self.wr.lock().unwrap();
+            h.buf.extend(data.iter().copied());
+            h.waker.take()
+        };
+        if let Some(w) = w {
+            w.wake();
+        }
+        Poll::Ready(Ok(data.len()))
+    }
+    fn poll_flush(self: Pin<&mut Self>, _: &mut Context<'_>) -> Poll<std::io::Result<()>> {
+        Poll::Ready(Ok(()))
+    }
+    fn poll_close(self: Pin<&mut Self>, _: &mut Context<'_>) -> Poll<std::io::Result<()>> {
+        Poll::Ready(Ok(()))
+    }
+}
+impl Drop for PipeEnd {
+    fn drop(&mut self) {
+        let w = {
+            let mut h = self.wr.lock().unwrap();
+            h.closed = true;
+            h.waker.take()
+        };
+        if let Some(w) = w {
+            w.wake();
+        }
+    }
+}
+
+// ------------------------------------------------------------------ scripted muxer: never does I/O by itself
+#[derive(Default)]
+struct MuxState {
+    inbound: VecDeque<PipeEnd>,
+    outbound: VecDeque<PipeEnd>,
+}
+struct ScriptedMuxer(Arc<Mutex<MuxState>>);
+impl StreamMuxer for ScriptedMuxer {
+    type Substream = PipeEnd;
+    type Error = std::io::Error;
+    fn poll_inbound(self: Pin<&mut Self>, _: &mut Context<'_>) -> Poll<Result<Self::Substream, Self::Error>> {
+        match self.0.lock().unwrap().inbound.pop_front() {
+            Some(s) => Poll::Ready(Ok(s)),
+            None => Poll::Pending,
+        }
+    }
+    fn poll_outbound(self: Pin<&mut Self>, _: &mut Context<'_>) -> Poll<Result<Self::Substream, Self::Error>> {
+        match self.0.lock().unwrap().outbound.pop_front() {
+            Some(s) => Poll::Ready(Ok(s)),
+            None => Poll::Pending,
+        }
+    }
+    fn poll_close(self: Pin<&mut Self>, _: &mut Context<'_>) -> Poll<Result<(), Self::Error>> {
+        Poll::Ready(Ok(()))
+    }
+    fn poll(self: Pin<&mut Self>, _: &mut Context<'_>) -> Poll<Result<StreamMuxerEvent, Self::Error>> {
+        Poll::Pending
+    }
+}
+
+// ------------------------------------------------------------------ probe handler
+#[derive(Default)]
+struct HState {
+    keep_alive: bool,
+    want_outbound: usize,
+    held: Vec<Stream>,
+    ignored: Vec<Stream>,
+    upgrade_errors: usize,
+}
+struct Probe(Arc<Mutex<HState>>);
+impl ConnectionHandler for Probe {
+    type FromBehaviour = std::convert::Infallible;
+    type ToBehaviour = std::convert::Infallible;
+    type InboundProtocol = ReadyUpgrade<StreamProtocol>;
+    type OutboundProtocol = ReadyUpgrade<StreamProtocol>;
+    type InboundOpenInfo = ();
+    type OutboundOpenInfo = ();
+
+    fn listen_protocol(&self) -> SubstreamProtocol<Self::InboundProtocol> {
+        SubstreamProtocol::new(ReadyUpgrade::new(StreamProtocol::new(PROTO)), ()).with_timeout(NEVER)
+    }
+    fn connection_keep_alive(&self) -> bool {
+        self.0.lock().unwrap().keep_alive
+    }
+    fn poll(&mut self, _: &mut Context<'_>) -> Poll<ConnectionHandlerEvent<Self::OutboundProtocol, (), Self::ToBehaviour>> {
+        let mut h = self.0.lock().unwrap();
+        if h.want_outbound > 0 {
+            h.want_outbound -= 1;
+            return Poll::Ready(ConnectionHandlerEvent::OutboundSubstreamRequest {
+                protocol: SubstreamProtocol::new(ReadyUpgrade::new(StreamProtocol::new(PROTO)), ()).with_timeout(NEVER),
+            });
+        }
+        Poll::Pending
+    }
+    fn on_behaviour_event(&mut self, e: Self::FromBehaviour) {
+        match e {}
+    }
+    fn on_connection_event(&mut self, event: ConnectionEvent<Self::InboundProtocol, Self::OutboundProtocol>) {
+        let mut h = self.0.lock().unwrap();
+        match event {
+            ConnectionEvent::FullyNegotiatedInbound(FullyNegotiatedInbound { protocol, .. }) => h.held.push(protocol),
+            ConnectionEvent::FullyNegotiatedOutbound(FullyNegotiatedOutbound { protocol, .. }) => h.held.push(protocol),
+            ConnectionEvent::DialUpgradeError(_) | ConnectionEvent::ListenUpgradeError(_) => h.upgrade_errors += 1,
+            _ => {}
+        }
+    }
+}
+
+// ------------------------------------------------------------------ the rig
+type RemoteFut = Pin<Box<dyn Future<Output = bool>>>;
+
+struct Rig {
+    conn: Option<Conn<Probe>>,
+    mux: Arc<Mutex<MuxState>>,
+    hs: Arc<Mutex<HState>>,
+    /// remote ends, FIFO like the muxer queues: not yet taken by the connection / being negotiated
+    out_offered: VecDeque<RemoteFut>,
+    out_negotiating: VecDeque<RemoteFut>,
+    in_offered: VecDeque<RemoteFut>,
+    in_negotiating: VecDeque<RemoteFut>,
+    /// remote dialers that wrote their proposal and wait for the connection's answer
+    finishing: Vec<RemoteFut>,
+    remote_failed: bool,
+    timer_stuck: bool,
+}
+
+fn noop_cx<R>(f: impl FnOnce(&mut Context<'_>) -> R) -> R {
+    let w = futures::task::noop_waker();
+    let mut cx = Context::from_waker(&w);
+    f(&mut cx)
+}
+
+/// wait until futures-timer's helper thread has processed the current (frozen) time: a probe `Delay`
+/// due *now*, created after every timer of the connection, must have fired; a second probe makes sure
+/// the helper's pass that fired the first one is complete (timers with equal deadlines fire in one pass).
+fn settle_timers() -> bool {
+    for _ in 0..2 {
+        let mut probe = futures_timer::Delay::new(Duration::ZERO);
+        let mut fired = false;
+        for i in 0..200_000u32 {
+            if noop_cx(|cx| probe.poll_unpin(cx)).is_ready() {
+                fired = true;
+                break;
+            }
+            drop(futures_timer::Delay::new(Duration::ZERO)); // kick the helper thread
+            if i < 50 {
+                std::thread::yield_now();
+            } else {
+                std::thread::sleep(Duration::from_micros(100));
+            }
+        }
+        if !fired {
+            return false;
+        }
+    }
+    true
+}
+
+impl Rig {
+    fn empty() -> Rig {
+        Rig {
+            conn: None,
+            mux: Default::default(),
+            hs: Default::default(),
+            out_offered: Default::default(),
+            out_negotiating: Default::default(),
+            in_offered: Default::default(),
+            in_negotiating: Default::default(),
+            finishing: vec![],
+            remote_failed: false,
+            timer_stuck: false,
+        }
+    }
+    fn new(timeout: Duration, max_in: usize) -> Rig {
+        let mut r = Rig::empty();
+        let muxer = StreamMuxerBox::new(ScriptedMuxer(r.mux.clone()));
+        r.conn = Some(Conn::new(muxer, Probe(r.hs.clone()), max_in, timeout));
+        r
+    }
+    fn drive_finishing(&mut self) {
+        let mut keep = vec![];
+        for mut f in self.finishing.drain(..) {
+            match noop_cx(|cx| f.as_mut().poll(cx)) {
+                Poll::Ready(ok) => {
+                    if !ok {
+                        self.remote_failed = true;
+                    }
+                }
+                Poll::Pending => keep.push(f),
+            }
+        }
+        self.finishing = keep;
+    }
+    fn op(&mut self, op: &[String]) -> String {
+        if self.conn.is_none() {
+            return "gone".into();
+        }
+        let mut res = "-".to_string();
+        match op[0].as_str() {
+            "ka" => self.hs.lock().unwrap().keep_alive = op[1] == "1",
+            "req" => self.hs.lock().unwrap().want_outbound += 1,
+            "allow" => {
+                let (a, b) = pipe();
+                self.mux.lock().unwrap().outbound.push_back(a);
+                // the remote end keeps the negotiated stream alive inside the finished future's output
+                let streams: Arc<Mutex<Vec<Box<dyn std::any::Any>>>> = Default::default();
+                let st = streams.clone();
+                self.out_offered.push_back(Box::pin(async move {
+                    let _keep = streams;
+                    match multistream_select::listener_select_proto(b, vec![PROTO]).await {
+                        Ok((_, s)) => {
+                            st.lock().unwrap().push(Box::new(s));
+                            std::mem::forget(st); // never close the remote end during the case
+                            true
+                        }
+                        Err(_) => false,
+                    }
+                }));
+            }
+            "respout" => {
+                if let Some(mut f) = self.out_negotiating.pop_front() {
+                    let mut done = false;
+                    for _ in 0..16 {
+                        if let Poll::Ready(ok) = noop_cx(|cx| f.as_mut().poll(cx)) {
+                            done = ok;
+                            break;
+                        }
+                    }
+                    if !done {
+                        self.remote_failed = true;
+                    }
+                }
+            }
+            "inb" => {
+                let (a, b) = pipe();
+                self.mux.lock().unwrap().inbound.push_back(a);
+                self.in_offered.push_back(Box::pin(async move {
+                    match multistream_select::dialer_select_proto(b, vec![PROTO], multistream_select::Version::V1).await {
+                        Ok((_, s)) => {
+                            std::mem::forget(s);
+                            true
+                        }
+                        Err(_) => false,
+                    }
+                }));
+            }
+            "respin" => {
+                if let Some(mut f) = self.in_negotiating.pop_front() {
+                    match noop_cx(|cx| f.as_mut().poll(cx)) {
+                        Poll::Ready(ok) => {
+                            if !ok {
+                                self.remote_failed = true;
+                            }
+                        }
+                        Poll::Pending => self.finishing.push(f),
+                    }
+                }
+            }
+            "drop" => {
+                let s = self.hs.lock().unwrap().held.pop();
+                drop(s);
+            }
+            "ignore" => {
+                let mut h = self.hs.lock().unwrap();
+                if let Some(mut s) = h.held.pop() {
+                    s.ignore_for_keep_alive();
+                    h.ignored.push(s);
+                }
+            }
+            "dropign" => {
+                let s = self.hs.lock().unwrap().ignored.pop();
+                drop(s);
+            }
+            "adv" => {
+                let ms: u64 = op[1].parse().unwrap();
+                hcore::warp(Duration::from_millis(ms));
+                if !settle_timers() {
+                    self.timer_stuck = true;
+                }
+            }
+            "poll" => {
+                let (o0, i0) = {
+                    let m = self.mux.lock().unwrap();
+                    (m.outbound.len(), m.inbound.len())
+                };
+                let r = noop_cx(|cx| self.conn.as_mut().unwrap().poll(cx));
+                let (o1, i1) = {
+                    let m = self.mux.lock().unwrap();
+                    (m.outbound.len(), m.inbound.len())
+                };
+                for _ in o1..o0 {
+                    let f = self.out_offered.pop_front().unwrap();
+                    self.out_negotiating.push_back(f);
+                }
+                for _ in i1..i0 {
+                    let f = self.in_offered.pop_front().unwrap();
+                    self.in_negotiating.push_back(f);
+                }
+                res = match r {
+                    Polled::Pending => "pending".into(),
+                    Polled::Event => "event".into(),
+                    Polled::KeepAliveTimeout => "closed".into(),
+                    Polled::OtherError(e) => format!("error:{}", e.replace(' ', "_")),
+                };
+            }
+            _ => panic!("bad op"),
+        }
+        self.drive_finishing();
+        let snap = self.conn.as_ref().unwrap().snapshot();
+        let extra = format!(
+            "{}{}{}",
+            if self.hs.lock().unwrap().upgrade_errors > 0 { " upgrade-error" } else { "" },
+            if self.remote_failed { " remote-negotiation-failed" } else { "" },
+            if self.timer_stuck { " timer-stuck" } else { "" }
+        );
+        let line = format!(
+            "{res} sh={} ni={} no={} rq={} act={}{extra}",
+            match snap.shutdown {
+                Kind::None => "none",
+                Kind::Asap => "asap",
+                Kind::Later => "later",
+            },
+            snap.negotiating_in,
+            snap.negotiating_out,
+            snap.requested_substreams,
+            snap.active_streams as u8
+        );
+        if res == "closed" || res.starts_with("error") {
+            // the pool drops a connection whose poll returned an error
+            self.conn = None;
+        }
+        line
+    }
+}
+
+fn parse_timeout(tok: &str) -> Duration {
+    if tok == "max" {
+        Duration::MAX
+    } else {
+        Duration::from_millis(tok.parse().unwrap())
+    }
+}
+
+fn exec(out: &mut Out, rig: &mut Rig, op: &[String]) {
     out.op(&op.join(" "));
     let r = hcore::guarded(|| match op[0].as_str() {
         "compute" => {
@@ -30,7 +439,23 @@ fn exec(out: &mut Out, op: &[String]) {
             let d: usize = op[2].parse().unwrap();
             format!("idle={}", verif_c10::counter_idle(c, d) as u8)
         }
-        _ => panic!("bad op"),
+        "new" => {
+            *rig = Rig::new(parse_timeout(&op[1]), op[2].parse().unwrap());
+            let snap = rig.conn.as_ref().unwrap().snapshot();
+            format!(
+                "- sh={} ni={} no={} rq={} act={}",
+                match snap.shutdown {
+                    Kind::None => "none",
+                    Kind::Asap => "asap",
+                    Kind::Later => "later",
+                },
+                snap.negotiating_in,
+                snap.negotiating_out,
+                snap.requested_substreams,
+                snap.active_streams as u8
+            )
+        }
+        _ => rig.op(op),
     });
     match r {
         Ok(s) => out.imp(&s),
@@ -38,54 +463,196 @@ fn exec(out: &mut Out, op: &[String]) {
     }
 }
 
+fn toks(s: &str) -> Vec<String> {
+    s.split_whitespace().map(|x| x.to_string()).collect()
+}
+
+fn script(out: &mut Out, idx: &mut u64, class: &str, ops: &[String]) {
+    out.case(*idx, &format!("{class} nt=1"));
+    *idx += 1;
+    let mut rig = Rig::empty();
+    for o in ops {
+        exec(out, &mut rig, &toks(o));
+    }
+    out.end();
+}
+
+/// hand-written histories around the deadline, incl. idle -> busy past the deadline -> idle again
+fn scenarios(t: u64) -> Vec<Vec<String>> {
+    let s = |v: &[&str]| -> Vec<String> { v.iter().map(|x| x.to_string()).collect() };
+    let adv = |d: u64| format!("adv {d}");
+    let new = format!("new {t} 2");
+    let mut v = vec![];
+    // plain: closes exactly at the deadline, not 1 ms before
+    v.push(vec![new.clone(), "poll".into(), adv(t.saturating_sub(1)), "poll".into(), adv(1), "poll".into()]);
+    // outbound stream through its whole life while the old deadline passes
+    v.push(
+        [
+            s(&[&new, "poll", "req", "poll"]),
+            vec![adv(t + 1000)],
+            s(&["poll", "allow", "poll", "respout", "poll", "drop", "poll"]),
+            vec![adv(t.saturating_sub(1))],
+            s(&["poll"]),
+            vec![adv(1)],
+            s(&["poll"]),
+        ]
+        .concat(),
+    );
+    // same with an inbound stream, marked ignore instead of dropped
+    v.push(
+        [
+            s(&[&new, "poll", "inb", "poll"]),
+            vec![adv(t + 5)],
+            s(&["poll", "respin", "poll", "ignore", "poll"]),
+            vec![adv(t / 2)],
+            s(&["poll"]),
+            vec![adv(t - t / 2)],
+            s(&["poll", "dropign", "poll"]),
+        ]
+        .concat(),
+    );
+    // keep-alive flips
+    v.push(
+        [
+            s(&[&new, "poll", "ka 1", "poll"]),
+            vec![adv(2 * t + 7)],
+            s(&["poll", "ka 0", "poll"]),
+            vec![adv(t.saturating_sub(1))],
+            s(&["poll"]),
+            vec![adv(1)],
+            s(&["poll"]),
+        ]
+        .concat(),
+    );
+    // request pending at the muxer for longer than the timeout, then served
+    v.push(
+        [
+            s(&[&new, "req", "poll"]),
+            vec![adv(3 * t)],
+            s(&["poll", "allow", "poll"]),
+            vec![adv(3 * t)],
+            s(&["poll", "respout", "poll", "ignore", "poll"]),
+            vec![adv(t)],
+            s(&["poll"]),
+        ]
+        .concat(),
+    );
+    // stream dropped between polls after the old deadline: the timer must restart at the next poll
+    v.push(
+        [
+            s(&[&new, "poll", "inb", "poll", "respin", "poll"]),
+            vec![adv(t + 1)],
+            s(&["drop"]),
+            vec![adv(t.saturating_sub(1))],
+            s(&["poll"]),
+            vec![adv(t.saturating_sub(1))],
+            s(&["poll"]),
+            vec![adv(1)],
+            s(&["poll"]),
+        ]
+        .concat(),
+    );
+    v
+}
+
+const ALPHA: [&str; 11] = ["poll", "ka 1", "ka 0", "req", "allow", "respout", "inb", "respin", "drop", "ignore", "dropign"];
+
 pub fn run(args: &Args, out: &mut Out) {
-    let s = |x: &str| x.to_string();
+    crate::clock::freeze();
     if let Some(cases) = args.replay_cases() {
         for (i, (_, ops)) in cases.iter().enumerate() {
             out.case(i as u64, "replay nt=1");
+            let mut rig = Rig::empty();
             for op in ops {
-                exec(out, op);
+                exec(out, &mut rig, op);
             }
             out.end();
         }
         return;
     }
+    let s = |x: &str| x.to_string();
     let mut idx = 0u64;
-    // the full decision table (3 x 2 x {0, 1 ms, 10 s, huge})
+    // (B) the callees: full decision table and counter configurations
     for cur in ["none", "asap", "later"] {
         for ka in ["0", "1"] {
             for t in ["0", "1", "10000", "18446744073709551615"] {
-                out.case(idx, "table nt=1");
-                exec(out, &[s("compute"), s(ka), s(cur), s(t)]);
-                out.end();
-                idx += 1;
+                script(out, &mut idx, "table", &[format!("compute {ka} {cur} {t}")]);
             }
         }
     }
     for c in 0..6usize {
         for d in 0..=c {
-            out.case(idx, "counter nt=1");
-            exec(out, &[s("counter"), c.to_string(), d.to_string()]);
-            out.end();
-            idx += 1;
+            script(out, &mut idx, "counter", &[format!("counter {c} {d}")]);
         }
     }
-    let n = args.n(300, 5000);
-    for i in 0..n {
-        let mut rng = Rng::for_case(args.seed, i);
-        out.case(idx, "random nt=1");
-        for _ in 0..(1 + rng.usize(6)) {
-            if rng.bool() {
-                let cur = *rng.pick(&["none", "asap", "later"]);
-                let t = if rng.chance(1, 3) { 0 } else { rng.below(100_000) };
-                exec(out, &[s("compute"), (rng.bool() as u8).to_string(), s(cur), t.to_string()]);
-            } else {
-                let c = rng.usize(40);
-                let d = rng.usize(c + 1);
-                exec(out, &[s("counter"), c.to_string(), d.to_string()]);
+    // (A) scripted histories
+    for t in [1u64, 2, 1000, 60_000] {
+        for sc in scenarios(t) {
+            script(out, &mut idx, "scenario", &sc);
+        }
+    }
+    for tm in ["0", "max", "9223372036854775", "18446744073709551"] {
+        let mut sc = vec![format!("new {tm} 2")];
+        for o in ["poll", "adv 100000", "poll", "req", "poll", "allow", "poll", "respout", "poll", "drop", "poll", "adv 1", "poll", "ka 1", "poll", "ka 0", "poll", "adv 1000000000", "poll"] {
+            sc.push(s(o));
+        }
+        script(out, &mut idx, "extreme", &sc);
+    }
+    // bounded exhaustive over short op sequences (timeout 10 ms; `adv 5` / `adv 10`)
+    let mut alpha: Vec<String> = ALPHA.iter().map(|x| s(x)).collect();
+    alpha.push(s("adv 5"));
+    alpha.push(s("adv 10"));
+    let depth = if args.thorough && args.count == 0 { 4 } else { 3 };
+    let mut seqs: Vec<Vec<String>> = vec![vec![]];
+    for _ in 0..depth {
+        let mut next = vec![];
+        for q in &seqs {
+            for a in &alpha {
+                let mut n = q.clone();
+                n.push(a.clone());
+                next.push(n);
             }
         }
-        out.end();
+        seqs = next;
+    }
+    for q in &seqs {
+        // every sequence runs from an idle, armed connection and ends with the deadline passing
+        let mut sc = vec![s("new 10 2"), s("poll")];
+        sc.extend(q.iter().cloned());
+        sc.extend([s("poll"), s("adv 10"), s("poll")]);
+        script(out, &mut idx, "exh", &sc);
+    }
+    // random histories
+    let n = args.n(1500, 30_000);
+    for i in 0..n {
+        let mut rng = Rng::for_case(args.seed, i);
+        let t: u64 = *rng.pick(&[0u64, 1, 10, 10, 100, 1000, 1000, 60_000]);
+        let tm = if rng.chance(1, 25) { s("max") } else { t.to_string() };
+        let max_in = 1 + rng.usize(3);
+        out.case(idx, "random nt=1");
         idx += 1;
+        let mut rig = Rig::empty();
+        exec(out, &mut rig, &toks(&format!("new {tm} {max_in}")));
+        let steps = 4 + rng.usize(36);
+        for _ in 0..steps {
+            if rig.conn.is_none() {
+                break;
+            }
+            let o = match rng.below(20) {
+                0..=6 => s("poll"),
+                7..=9 => {
+                    let tt = t.max(2);
+                    let d = *rng.pick(&[1, tt / 2, tt - 1, tt, tt + 1, 2 * tt, 1]);
+                    format!("adv {}", d.max(1))
+                }
+                10 => format!("ka {}", rng.below(2)),
+                _ => s(ALPHA[3 + rng.usize(ALPHA.len() - 3)]),
+            };
+            exec(out, &mut rig, &toks(&o));
+        }
+        if rig.conn.is_some() {
+            exec(out, &mut rig, &toks("poll"));
+        }
+        out.end();
     }
 }
